@@ -1433,7 +1433,7 @@ pub fn run(ctx: &Ctx, property: &'static str) -> Report {
     return report;
   }
 
-  let budget_total: u64 = if ctx.thorough() { 3600 } else { 50 };
+  let budget_total: u64 = if ctx.thorough() { 900 } else { 50 };
   let mut all_states: BTreeSet<String> = BTreeSet::new();
   let mut exhaustive = true;
   let mut traces = 0;
